@@ -1084,7 +1084,7 @@ F_C20_step(cfg, pre, post) ==
 (* received work equals the requirement.  `left` is the engine's remaining-work variable; its       *)
 (* evolution is checked here against rates computed independently from the observed states.        *)
 
-Dom_C19(cfg) == cfg.P = 1 /\ \A n \in DOMAIN cfg.nodes : cfg.nodes[n].qcap >= INF
+Dom_C19(cfg) == \A n \in DOMAIN cfg.nodes : cfg.nodes[n].qcap >= INF
 PsNodes(cfg) == {n \in DOMAIN cfg.nodes : cfg.nodes[n].kind = "ps"}
 \* customers sharing the processor at node n: started and not finished
 Sharing(S, n) == {j \in DOMAIN S.cu : S.cu[j].loc = n /\ S.cu[j].ss # NONE}
@@ -1094,8 +1094,11 @@ F_C19_inv(cfg, S) ==
     ELSE Chk("C19.at-most-capacity-sharing-fcfs", \A n \in PsNodes(cfg) :
             LET q == Qs(S, n)
                 k == Min2(Len(q), cfg.nodes[n].c)
-            IN \* exactly the first min(population, capacity) customers in arrival order are in service
-               \A a \in DOMAIN q : IsLive(S, q[a]) => ((CuOf(S, q[a]).ss # NONE) <=> (a <= k)))
+            IN \* one priority class: exactly the first min(population, capacity) customers in arrival order share
+               cfg.P = 1 => \A a \in DOMAIN q : IsLive(S, q[a]) => ((CuOf(S, q[a]).ss # NONE) <=> (a <= k)))
+         \cup Chk("C19.capacity-fully-used", \A n \in PsNodes(cfg) :
+            \* min(population, capacity) customers share, whatever their classes
+            Cardinality(Sharing(S, n)) = Min2(S.nodes[n].count, cfg.nodes[n].c))
          \cup Chk("C19.projected-end-at-current-rate", \A n \in PsNodes(cfg) :
             \* (end - last update) = remaining work * max(k, R) / R, k = number sharing now
             LET k == Cardinality(Sharing(S, n))
@@ -1111,6 +1114,12 @@ F_C19_step(cfg, pre, post) ==
            LET s == post.steps[a]
            IN s.n \in PsNodes(cfg) /\ IsLive(post, s.i) /\ CuOf(post, s.i).loc = s.n /\ CuOf(post, s.i).ss = post.now
               => CuOf(post, s.i).st = s.y /\ CuOf(post, s.i).left = s.y)
+    \cup Chk("C19.waiting-customers-start-first-come-first-served", \A a \in IdxOf(post, "start") :
+           \* nobody who still waits after the event arrived strictly before a customer started in it
+           LET s == post.steps[a]
+           IN s.n \in PsNodes(cfg) /\ IsLive(post, s.i) /\ CuOf(post, s.i).loc = s.n =>
+                \A j \in DOMAIN post.cu : post.cu[j].loc = s.n /\ post.cu[j].ss = NONE
+                                            => post.cu[j].arr >= CuOf(post, s.i).arr)
     \cup Chk("C19.work-progresses-at-shared-rate", \A n \in PsNodes(cfg) :
            \* a customer sharing before and after the event: its remaining work decreased by
            \* (time since its last update) * R / max(k, R), k = number sharing BEFORE the event
